@@ -11,6 +11,24 @@ import DimodModel.VarsMore
     `count`, `index`, `__contains__`, `__len__`, `__iter__`, `__getitem__` of the mixins are overridden by
     `cyVariables`, so the mixin bodies below call the `cyVariables` ones, as the MRO does.  Core Lean only. -/
 
+namespace PyKey
+mutual
+/-- an injective code of an object — its TYPE tag and its value — as a `Label` (which has decidable equality):
+    0 `int`, 1 `bool`, 2 `float`, 3 NumPy integer, 4 NumPy floating, 5 `str`, 6 `tuple` -/
+def code : PyKey → Label
+  | .int z => .tup [.int 0, .int z]
+  | .bool b => .tup [.int 1, .int (if b then 1 else 0)]
+  | .float z => .tup [.int 2, .int z]
+  | .npInt z => .tup [.int 3, .int z]
+  | .npFloat z => .tup [.int 4, .int z]
+  | .str s => .tup [.int 5, .str s]
+  | .tup l => .tup (.int 6 :: codeList l)
+def codeList : List PyKey → List Label
+  | [] => []
+  | a :: l => code a :: codeList l
+end
+end PyKey
+
 namespace KState
 open PyKey
 
